@@ -11,6 +11,8 @@ import json, os, subprocess, sys, shutil, tempfile
 
 seed = os.path.abspath(sys.argv[1])
 run_tests = "--tests" in sys.argv
+no_repo = "--no-repo" in sys.argv          # part 1 only (scratch worktree: demo, optional test suite)
+repo_only = "--repo-only" in sys.argv      # part 2 only (patch applied to /repo, claimed checks, patch undone)
 patch = os.path.join(seed, "patch.diff")
 demo = os.path.join(seed, "demo.py")
 meta = json.load(open(os.path.join(seed, "meta.json")))
@@ -22,8 +24,13 @@ def sh(cmd, cwd=None, timeout=1800):
 
 name = "verify_%d" % os.getpid()
 wt = "/tmp/wt_" + name
-rc, out = sh("/verif/tools/mkwt.sh %s" % name)
+if repo_only:
+    wt = None
+else:
+    rc, out = sh("/verif/tools/mkwt.sh %s" % name)
 try:
+    if repo_only:
+        raise StopIteration
     rc0, o0 = sh("/venv/bin/python %s" % demo, cwd=wt)
     res["demo_clean_rc"] = rc0
     rca, oa = sh("git apply %s" % patch, cwd=wt)
@@ -44,9 +51,15 @@ try:
             res["tests"] = o2.strip().split("\n")[0]
             res["tests_missing"] = o2.strip().split("\n")[1:6]
             os.remove("/tmp/junit_%s.xml" % name)
+except StopIteration:
+    pass
 finally:
-    sh("git -C /repo worktree remove --force %s" % wt)
-    shutil.rmtree(wt, ignore_errors=True)
+    if wt:
+        sh("git -C /repo worktree remove --force %s" % wt)
+        shutil.rmtree(wt, ignore_errors=True)
+if no_repo:
+    print(json.dumps(res, indent=1))
+    sys.exit(0)
 
 # checks against /repo itself
 rc, out = sh("git -C /repo status --porcelain --untracked-files=no")
